@@ -65,6 +65,48 @@ Fixpoint utf8_decode_with (bad : N) (bs : list N) : list N :=
         end
   end.
 
+(** The same decoder keeping undecodable bytes apart ([None]). *)
+Fixpoint utf8_decode_opt (bs : list N) : list (option N) :=
+  match bs with
+  | [] => []
+  | b0 :: r0 =>
+      if b0 <? 128 then Some b0 :: utf8_decode_opt r0
+      else
+        match lead b0 with
+        | None => None :: utf8_decode_opt r0
+        | Some (sz, lo, hi) =>
+            match r0 with
+            | [] => [None]
+            | b1 :: r1 =>
+                if negb (in_range lo hi b1) then None :: utf8_decode_opt r0
+                else if sz =? 2 then
+                  Some ((b0 mod 32) * 64 + b1 mod 64) :: utf8_decode_opt r1
+                else
+                  match r1 with
+                  | [] => None :: utf8_decode_opt r0
+                  | b2 :: r2 =>
+                      if negb (cont b2) then None :: utf8_decode_opt r0
+                      else if sz =? 3 then
+                        Some ((b0 mod 16) * 4096 + (b1 mod 64) * 64 + b2 mod 64)
+                          :: utf8_decode_opt r2
+                      else
+                        match r2 with
+                        | [] => None :: utf8_decode_opt r0
+                        | b3 :: r3 =>
+                            if negb (cont b3) then None :: utf8_decode_opt r0
+                            else
+                              Some ((b0 mod 8) * 262144 + (b1 mod 64) * 4096
+                                    + (b2 mod 64) * 64 + b3 mod 64)
+                                :: utf8_decode_opt r3
+                        end
+                  end
+            end
+        end
+  end.
+
+
+Definition or_bad (bad : N) (o : option N) : N := match o with Some r => r | None => bad end.
+
 (** The decoder of [ReadRune]: an undecodable byte reads as U+FFFD. *)
 Notation utf8_decode := (utf8_decode_with rune_error).
 
@@ -362,4 +404,27 @@ Proof.
   destruct (negb (cont b3)); [cbn [length] in *; lia|].
   assert (I3 := IH r3 ltac:(cbn; lia)).
   cbn [length] in *; lia.
+Qed.
+
+Lemma utf8_decode_with_opt bad bs :
+  utf8_decode_with bad bs = map (or_bad bad) (utf8_decode_opt bs).
+Proof.
+  induction bs as [bs IH] using (induction_ltof1 _ (@length N)). unfold ltof in IH.
+  destruct bs as [|b0 r0]; [reflexivity|].
+  assert (I0 := IH r0 ltac:(cbn; lia)).
+  cbn [utf8_decode_with utf8_decode_opt].
+  destruct (b0 <? 128); [cbn [map or_bad]; now rewrite I0|].
+  destruct (lead b0) as [[[sz lo] hi]|]; [|cbn [map or_bad]; now rewrite I0].
+  destruct r0 as [|b1 r1]; [reflexivity|].
+  destruct (negb (in_range lo hi b1)); [cbn [map or_bad]; now rewrite I0|].
+  assert (I1 := IH r1 ltac:(cbn; lia)).
+  destruct (sz =? 2); [cbn [map or_bad]; now rewrite I1|].
+  destruct r1 as [|b2 r2]; [cbn [map or_bad]; now rewrite I0|].
+  destruct (negb (cont b2)); [cbn [map or_bad]; now rewrite I0|].
+  assert (I2 := IH r2 ltac:(cbn; lia)).
+  destruct (sz =? 3); [cbn [map or_bad]; now rewrite I2|].
+  destruct r2 as [|b3 r3]; [cbn [map or_bad]; now rewrite I0|].
+  destruct (negb (cont b3)); [cbn [map or_bad]; now rewrite I0|].
+  assert (I3 := IH r3 ltac:(cbn; lia)).
+  cbn [map or_bad]. now rewrite I3.
 Qed.
